@@ -375,6 +375,12 @@ def build_answer(text, language, tag, cfg):
             matches.append(make_match(text, o, len(w), tag, cfg, w))
             if w in cfg.get('dup', []):
                 matches.append(make_match(text, o, len(w), tag, cfg, w))
+        for w in cfg.get('eol', []):
+            # a match that ends with the line break behind a word
+            o = text.find(w)
+            if o >= 0 and text[o + len(w):o + len(w) + 1] == '\n':
+                matches.append(make_match(text, o, len(w) + 1, tag, cfg,
+                                          label=w + '+EOL'))
         for (w1, w2) in cfg.get('phrases', []):
             # a match from one word to another one, possibly across a line break
             o1, o2 = text.find(w1), text.find(w2)
